@@ -8,6 +8,12 @@ CHECKS = {
              tech="TLC-enumerated programs + TLA+ reference semantics, replayed into the real compiler/runtime; trace validated by TLC"),
  "C11": dict(text="Same generation and replay as C01; the reference is StrictMem (BeffSem.tla, intersections of object types merged so that the keys declared at a position count all members) and the observation is validate(v, {disallowExtraProperties: true}).",
              ref="4/C11", note="As C01.", tech="TLC-enumerated programs + TLA+ strict-membership reference; trace validated by TLC"),
+ "C03": dict(text="Same TLC-enumerated programs and probes as C01; the driver calls validate / safeParse / parse under all four ParseOptions combinations, re-validates and re-parses the returned data and re-encodes the input afterwards; TLC (Trace_Parse.tla) judges every logged call relationally: agreement of the three entry points, only the documented failure error may be thrown, data is a SubValue of the input with only Declared keys, accepted again by the same validator, stable under re-parse, equal up to key order between 'input' and 'sorted', input not mutated.",
+             ref="4/C03", note="Trusted: TLC, the relations SubValue/Declared of Trace_Parse.tla as my reading of 'faithful projection', the driver's value codec. b.*-built parsers are not yet generated (compiled validators only).",
+             tech="TLC-enumerated programs x 4 option sets; relational trace validation by TLC"),
+ "C12": dict(text="Rejected calls from the same traces as C03: TLC (Trace_Parse.tla) checks 1..10 errors, that every path (recursively through union errors, parent paths prepended) resolves in the logged input or names a missing property of an existing object, that 'received' equals the value at that position, and that the message thrown by parse is the documented one and identical on a second call.",
+             ref="4/C12", note="Trusted: TLC, the driver's syntactic tokenisation of path segments; Map keys / Set members that JSON cannot spell are addressed lossily by the implementation and treated as don't-care.",
+             tech="TLC-enumerated programs; error-path resolution evaluated by TLC on logged errors"),
 }
 NA = []
 def main():
